@@ -21,7 +21,9 @@ var numPool = []string{"0", "-0", "1", "-1", "12", "1.5", "-1.5", "0.1", "1e5", 
 	"-9223372036854775809", "18446744073709551615", "18446744073709551616", "127", "128", "-128", "-129", "255", "256", "32767", "32768", "65535", "65536", "2147483647", "2147483648", "-2147483648",
 	"-2147483649", "4294967295", "4294967296", "1e400", "-1e400", "1e-400", "0.0", "1.0", "100", "1e2", "1.5e1", "3.4028235e38", "3.5e38", "1e39", "0.000001", "1e21", "123456789012345678901234567890", "2.5", "1e0", "0e0", "0E-1"}
 
-var escPool = []string{`\"`, `\\`, `\/`, `\b`, `\f`, `\n`, `\r`, `\t`, `\u0041`, `\u00e9`, `\u4e16`, `\ud83d\ude00`, `\uD83D\uDE00`, `\ud83d`, `\ude00`, `\ud83dx`, `\ud83d\u0041`, `\ude00\ud83d`, `\u0000`, `\u001f`, `\u2028`, `\u2029`, `\u003c`, `\uffff`, `\ufffd`, `\u0022`, `\u005c`}
+var escPool = []string{`\"`, `\\`, `\/`, `\b`, `\f`, `\n`, `\r`, `\t`, `\u0041`, `\u00e9`, `\u4e16`, `\ud83d\ude00`, `\uD83D\uDE00`, `\ud83d`, `\ude00`, `\ud83dx`, `\ud83d\u0041`, `\ude00\ud83d`, `\u0000`, `\u001f`, `\u2028`, `\u2029`, `\u003c`, `\uffff`, `\ufffd`, `\u0022`, `\u005c`,
+	// code points at the edges of the 1-, 2- and 3-byte UTF-8 encodings and of the surrogate block
+	`\u007f`, `\u0080`, `\u00ff`, `\u07ff`, `\u0800`, `\ud7ff`, `\ue000`, `\ufffe`, `\u0001`, `\u0020`, `\udbff\udfff`, `\ud800\udc00`}
 
 var plainPool = []string{"a", "b", "Z", "0", " ", "/", "<", ">", "&", "\u00e9", "\u4e16", "\U0001F600", "\u2028", "\u2029", "\x7f", "'", "abcdefgh", "0123456789abcdef", "\u00ff", "key", "null", "\xff", "\xc3", "\xed\xa0\x80", "\ufffd"}
 
